@@ -86,6 +86,7 @@ type Frame struct {
 	cur      *HeapState
 	curReach string
 	curBlock *ssa.BasicBlock
+	curPos   string // source position of the instruction being executed (for safety obligations)
 	contract *Contract
 	rets     []*retInfo
 	inlined  bool
@@ -404,6 +405,9 @@ func (fr *Frame) assumeSliceInv(v *SVal) {
 
 func (fr *Frame) oblige(kind, detail, cond string, clause string) {
 	x := fr.x
+	if clause == "" && fr.curPos != "" && (strings.HasPrefix(kind, "safe") || kind == "nooverflow" || kind == "nopanic") {
+		clause = "at " + fr.curPos
+	}
 	if cond == "true" {
 		// discharged syntactically by the generator's own simplification; recorded for
 		// clauses of the contract (not for the implicit safety conditions)
